@@ -20,7 +20,7 @@ from vmon.util import derive_rng
 
 LEVEL = "exploration"
 MANIFEST = {
-    "text": "Small datasets (1-9 files; named / unnamed / unsorted index; int, float, string, datetime, bool, categorical columns with nulls; overlapping file statistics; an empty file) are written with to_parquet and read back with both reader implementations (fsspec, arrow filesystem) x calculate_divisions on/off on the real code. Oracles: round trip equals the written frame (data, index, name; divisions truthful when requested); every combination of column subset x comparison/and/or predicate tree (<=3 atoms, exhaustive over 9 atoms in thorough) x user-supplied filters= x partition subset x len() computed after optimize() equals pandas applied to the fully read frame; overwriting a dataset the same query still reads is refused. The rule monitor records whether filters / columns / lengths were absorbed by the reader and whether fused multi-file reads were created.",
+    "text": "Small datasets (1-9 files; named / unnamed / unsorted index; int, float, string, datetime, bool, categorical columns with nulls; overlapping file statistics; an empty file) are written with to_parquet and read back with both reader implementations (fsspec, arrow filesystem) x calculate_divisions on/off on the real code. Oracles: round trip equals the written frame (data, index, name; divisions truthful when requested); every combination of column subset x comparison/and/or predicate tree (<=3 atoms, exhaustive over 9 atoms in thorough) x user-supplied filters= x partition subset x len() computed after optimize() equals pandas applied to the fully read frame; overwriting a dataset the same query still reads is refused. The rule monitor records whether filters / columns / lengths were absorbed by the reader and whether fused multi-file reads were created. Datasets whose file-name order is a non-involutive permutation of their index order are included.",
     "note": "Row-group pruning may change the partition count, so results are compared as whole frames unless a partition subset is requested. The pandas side is the concatenation of the reader's own partitions of the unfiltered dataset.",
     "technique": "runtime monitoring: differential oracle (pushed-down vs in-memory pandas) over an enumerated dataset x reader x projection x predicate grid, with M-rule recording absorption",
     "design_ref": "DESIGN.md section 4, C18",
